@@ -157,6 +157,15 @@ add("C10", "lit", "exploration",
     "The literal is evaluated by a harness evaluator over go/types information rather than compiled and run; go/types and go/constant are trusted.",
     "DESIGN.md section 3, C10")
 
+add("C16", "gen", "exploration",
+    "property-based testing (rapid): batches of generated packages through the real runtimedoc generator, compiled and run by go test against a harness-written expectation table",
+    "Generated packages (plain/generic structs, value/pointer embedding of exported and unexported structs, structs without exported fields, anonymous/empty struct fields, "
+    "defined non-struct types, interfaces; hostile doc text) are processed by the real generator; each package then compiles with a harness-written _test.go that "
+    "calls RuntimeDoc for the type, every listed field, every delegated field, unlisted and unknown names and compares with expectations derived from the harness's own spec "
+    "(strings via strconv.Quote, independent of gengo); uncovered types must not have the method (unless Go promotes one).",
+    "Trusts the Go toolchain; names passed to non-struct types and nil embedded pointers are not asserted.",
+    "DESIGN.md section 3, C16")
+
 ALL = ["C%02d" % i for i in range(1, 21)]
 
 def main():
